@@ -14,6 +14,9 @@ Decided here:
   C11-R3  every fixed-point loop runs to stabilisation: classical loops exit only when the iterate equals its
           previous value, the saturation loop only after a full sweep over all network variables without an update.
   C11-R4  the self-loop set handed to the evaluators is compute_steady_states of the evaluated graph in every driver.
+  C11-R5  eval_node, partially evaluated for every temporal operator, applies the evaluator to the results of the operands and to the
+          steady-state set it received (an evaluator that obeys its law but is handed an empty self-loop set does not; shared with
+          C01-R1 / C13-R2).
 Not decided: convergence speed, the library's pre-image (L2)."""
 import evalnode as E
 import polarity
@@ -73,6 +76,13 @@ def run(prog, rep):
     rep.rule("C11-R4", "every driver passes compute_steady_states(graph) of the evaluated graph to eval_node (EX/AX treat steady states as self-loops)")
     pipelines.check_steady_pipeline(prog, rep, "C11-R4")
     rep.floor("C11-R4", 20)
+    # the laws are stated for the operators as the checker applies them: eval_node hands the evaluators the results of the operands and
+    # the pre-computed steady states (an evaluator that is right but called with an empty self-loop set breaks EW = T | (S & EX EW))
+    rep.rule("C11-R5", "eval_node applies every temporal operator to its operands' results and the steady states (shared with C01-R1 / C13-R2)")
+    for key, shape, alts, kind, op in sem.plain_shapes():
+        if (kind.replace("unary", "UnaryOp").replace("binary", "BinaryOp"), op) in TEMPORAL or op in [o for _, o in TEMPORAL]:
+            sem.check_shape(rep, "C11-R5", en, shape, alts, key, detail=f"{kind} {op}")
+    rep.floor("C11-R5", 10)
     for f in prog.lib_fns():
         if f.path.startswith(E.OPS):
             rep.functions.add(f.qual)
